@@ -31,6 +31,12 @@ func runSubset(t *GT, rc *RunCfg, bind *Binding, directive string) subsetRun {
 }
 
 func directiveFor(mask int, r *Rand) string {
+	// directives count anywhere in the leading comment block: after blank lines, white space, ordinary comments
+	lead := []string{"", "", "\n", " \t", "; an ordinary comment first\n", ";; note\n\n"}[r.Intn(6)]
+	return lead + directiveBody(mask, r)
+}
+
+func directiveBody(mask int, r *Rand) string {
 	var parts []string
 	for i, n := range optNames {
 		on := mask&(1<<i) != 0
